@@ -132,3 +132,79 @@ func VerifC02_Step() {
 		}
 	}
 }
+
+// VerifC02_Chain: a single update on a 3-level layout: every coarser slot covering the written
+// point is recomputed, level by level, from the post-write data of the next finer archive;
+// recomputation continues to the next level only for slots that were stored; every other slot
+// of every archive is left exactly as it was.
+func VerifC02_Chain() {
+	ls := []string{"1s:2s,2s:4s,4s:8s"}
+	if vrt.Tier() == 1 {
+		ls = append(ls, "1s:3s,3s:9s,9s:18s", "1s:4s,2s:10s,10s:30s")
+	}
+	txt := ls[vrt.Choose("layout", len(ls))]
+	list, _ := ParseArchiveInfoList(txt)
+	m := AggregationMethod(1 + vrt.Choose("method", 6))
+	xff := vrt.F32("xff")
+	vrt.Assume(xff >= 0)
+	vrt.Assume(xff <= 1)
+	h, err := NewHeader(m, xff, list)
+	vrt.Assume(err == nil)
+	now := vrtInstant(h, "now")
+	vrtAssumeClock(h, now)
+	img, pre := vrtInvImage(h, "s", now)
+	w := vrtOpenImage("c02c.wsp", img)
+	t := vrtInstant(h, "t")
+	vrtAssumeNear(h, now, t)
+	a0 := h.archiveInfoList[0]
+	vrt.Assume(t <= now)
+	vrt.Assume(int64(t) > int64(now)-int64(a0.secondsPerPoint)*int64(a0.numberOfPoints))
+	v := Value(vrt.F64("v"))
+	vrt.Reach("pre")
+	werr := w.UpdatePointForArchive(0, t, v, now)
+	vrt.Assert(werr == nil, "C02.chain in-range update accepted")
+	post := vrtRawSlots(w, h)
+	na := len(h.archiveInfoList)
+	stored := true // level 0 was written directly
+	for lv := 1; lv < na; lv++ {
+		hi, lo := h.archiveInfoList[lv-1], h.archiveInfoList[lv]
+		ct := refAlign(t, lo.secondsPerPoint)
+		r := int(lo.secondsPerPoint / hi.secondsPerPoint)
+		bl := post.t[lv][0]
+		changedSlot := -1
+		if stored {
+			// known finer values in the POST-write finer archive, in time order
+			var k []Value
+			bh := post.t[lv-1][0]
+			for i := 0; i < r; i++ {
+				ft := Timestamp(int64(ct) + int64(i)*int64(hi.secondsPerPoint))
+				j := refIndex(bh, ft, hi.secondsPerPoint, hi.numberOfPoints)
+				if post.t[lv-1][j] == ft {
+					k = append(k, post.v[lv-1][j])
+				}
+			}
+			st := false
+			if len(k) >= 1 {
+				if float32(len(k))/float32(r) >= xff {
+					st = true
+				}
+			}
+			stored = st
+			if st {
+				vrt.Assert(bl != 0, "C02.chain coarser archive has a base after a stored aggregate")
+				j := refIndex(bl, ct, lo.secondsPerPoint, lo.numberOfPoints)
+				changedSlot = j
+				want := refAgg(m, k)
+				got := post.v[lv][j]
+				vrt.Assert(post.t[lv][j] == ct, "C02.chain coarser slot covering the point holds its interval")
+				vrt.Assert(vrt.SameBits(float64(got), float64(want)) || (got.IsNaN() && want.IsNaN()), "C02.chain coarser slot is the aggregate of the current finer values")
+			}
+		}
+		for q := range pre.t[lv] {
+			if q != changedSlot {
+				vrt.Assert(post.t[lv][q] == pre.t[lv][q], "C02.chain slots not covering the point (or below a skipped level) untouched (time)")
+				vrt.Assert(vrt.SameBits(float64(post.v[lv][q]), float64(pre.v[lv][q])), "C02.chain slots not covering the point (or below a skipped level) untouched (value)")
+			}
+		}
+	}
+}
